@@ -1960,6 +1960,15 @@ def s_slice_swap(m, st, info, args):
     return unit()
 
 
+@summary(r"std::hint::select_unpredictable", r"core::hint::select_unpredictable")
+def s_select_unpredictable(m, st, info, args):
+    """select_unpredictable(cond, a, b) = if cond { a } else { b } (its body goes through MaybeUninit / raw copies)"""
+    c = args[0]
+    if is_sym(c) or isinstance(c, z3.BoolRef):
+        return args[1] if m.decide(c if isinstance(c, z3.BoolRef) else (c != 0), "select-unpredictable") else args[2]
+    return args[1] if c else args[2]
+
+
 @summary(r"std::mem::swap", r"core::mem::swap")
 def s_mem_swap(m, st, info, args):
     pa, pb = m.unwrap_ptr(args[0]), m.unwrap_ptr(args[1])
